@@ -248,6 +248,13 @@ def check(run, views, tier):
                 v = r[2][0] if (r[0] == "ctor" and r[1].endswith("::Ok") and r[2]) else r
                 key = None
                 for c in p.conds:
+                    if c[0] == "if" and c[1][0] == "bin" and c[1][1] == "Eq" and ("var", "s") in (c[1][2], c[1][3]):
+                        lit = c[1][3] if c[1][2] == ("var", "s") else c[1][2]
+                        if lit[0] == "lit" and lit[1] in ("true", "false"):
+                            if c[2] is True:
+                                key = lit[1]
+                            elif key is None or key in ("true", "false"):
+                                key = "other"
                     if c[0] == "match" and c[1] == ("var", "s"):
                         m = re.match(r"^'(true|false)'$", c[2])
                         key = m.group(1) if m else "other"
